@@ -12,7 +12,8 @@ NOT_DECIDED = []
 
 WOVEN = {"weave": "@repo/src/blake2/blake2b.c", "out": "blake2b_woven.c", "header": True,
          "loops": [{"function": "blake2b_update", "expect_loops": 1, "loops": {"0": "RXV_UPDATE_LOOP_INVARIANT"}}]}
-BASE = {"incdirs": ["@repo/src/blake2"], "expect_classes": ["postcondition"], "expect_min": 20, "timeout": 1500}
+FRAMING_REPLAY = {"prog": "replay_blake2b_framing.c", "sources": ["src/blake2/blake2b.c"], "flags": ["-O1"], "no_args": True}
+BASE = {"incdirs": ["@repo/src/blake2"], "expect_classes": ["postcondition"], "expect_min": 20, "timeout": 1500, "replay": FRAMING_REPLAY}
 
 
 def ob(name, entry, enforce, replace, stub=True, **kw):
